@@ -215,7 +215,12 @@ def _def_value(defs, node, name):
     return rd[0].value if len(rd) == 1 else None
 
 
-def _decide_endpoint(ctx, a, call, node, defs, rel, q, desc):
+def _decide_endpoint(ctx, a, call, node, defs, rel, q, desc, _depth=0):
+    if isinstance(a, ast.Name) and _depth < 3:
+        # a local that holds the looked-up atom: new_first = atom_mapping[a1]
+        v = _def_value(defs, node, a.id)
+        if isinstance(v, (ast.Subscript, ast.Call)):
+            return _decide_endpoint(ctx, v, call, node, defs, rel, q, desc, _depth + 1)
     if isinstance(a, ast.Subscript):
         base = dotted(a.value) or src(a.value)
         ctx.holds("C04-R2", call, rel, q, desc, "looked up in `%s`" % base)
@@ -321,60 +326,93 @@ def _dataframe(ctx):
 
 
 def _hdf5(ctx):
+    """The HDF5 topology node: the setter is evaluated (sa/tensym.py) on the model topology up to json.dumps, the getter on what the setter
+    produced (json.loads returns that very structure), with Topology / Chain / Residue / Atom instantiated from their source; the topology
+    that comes back is compared with the one that went in, field by field of the list the property says is preserved."""
+    from ..tensym import Obj, Raised
+    from ..pysym import Unsupported as PUnsupported
+    import copy as _copy
     sq = "HDF5TrajectoryFile.topology.setter"
     gq = "HDF5TrajectoryFile.topology.getter"
     sfn = ctx.py.func(H5, sq)
     gfn = ctx.py.func(H5, gq)
-    # writer: dict literals assigned to chain_dict / residue_dict / appended atom dict
-    levels = {}
-    for n in walk_no_nested(sfn):
-        if isinstance(n, ast.Dict):
-            keys = [const(k) for k in n.keys]
-            vals = {const(k): v for k, v in zip(n.keys, n.values)}
-            if "residues" in keys:
-                levels["chain"] = vals
-            elif "atoms" in keys:
-                levels["residue"] = vals
-            elif "element" in keys or ("name" in keys and "index" in keys and len(keys) <= 4):
-                levels["atom"] = vals
-    if set(levels) != {"chain", "residue", "atom"}:
-        ctx.undecided("C04-R1", sfn, H5, sq, "JSON levels", "cannot identify chain/residue/atom dict literals (%s)" % sorted(levels))
+    W = _TopWorld(ctx)
+    h5funcs = {q: f for q, f in ctx.py.mod(H5).functions.items() if "." not in q}
+
+    class _Captured(Exception):
+        pass
+    cap = {}
+
+    def dumps(ev, call):
+        cap["doc"] = ev.ex(call.args[0])
+        raise _Captured()
+    ts = W.evaluator(models={"json.dumps": dumps, "_check_mode": lambda ev, c: None})
+    ts.funcs = dict(W.funcs, **h5funcs)
+    top = W.build(ts)
+    me = Obj(mode="w", _lenient=True, tables=Obj(NoSuchNodeError="NoSuchNodeError"), _remove_node=lambda **k: None)
+    try:
+        try:
+            ts.run_fn(sfn, self=me, topology_object=top)
+            ctx.undecided("C04-R1", sfn, H5, sq, "JSON document", "the setter finishes without calling json.dumps")
+            return
+        except _Captured:
+            pass
+    except Raised as e:
+        ctx.violated("C04-R1", sfn, H5, sq, "JSON document", "the setter raises %s on the model topology" % (e.exc or e))
         return
-    # reader keys
-    rkeys = {"chain": set(), "residue": set(), "atom": set()}
-    for n in walk_no_nested(gfn):
-        if isinstance(n, ast.Subscript):
-            b = dotted(n.value)
-            k = const(n.slice)
-            if isinstance(k, str) and b in ("chain_dict", "residue_dict", "atom_dict"):
-                rkeys[b.split("_")[0]].add(k)
-        if isinstance(n, ast.Call) and isinstance(n.func, ast.Attribute) and n.func.attr in ("get", "pop") and n.args:
-            b = dotted(n.func.value)
-            k = const(n.args[0])
-            if isinstance(k, str) and b in ("chain_dict", "residue_dict", "atom_dict"):
-                rkeys[b.split("_")[0]].add(k)
-    for lvl in ("chain", "residue", "atom"):
-        for k in sorted(rkeys[lvl]):
-            ctx.decide(k in levels[lvl], "C04-R1", gfn, H5, gq, "%s key %r" % (lvl, k), "written by the setter",
-                       "getter reads %s key %r which the setter never writes" % (lvl, k))
-    jsonname = {"segment_id": "segmentID"}
-    for lvl, fields in PRESERVED.items():
-        for f in fields:
-            slot = [k for k, v in levels[lvl].items() if ("." + f) in src(v) or k == jsonname.get(f, f)]
-            desc = "HDF5 JSON slot for %s.%s" % (lvl, f)
-            if not slot:
-                ctx.violated("C04-R1", sfn, H5, sq, desc, "the topology JSON has no key for %s.%s: it is lost on save+load" % (lvl, f))
-            else:
-                ctx.decide(slot[0] in rkeys[lvl], "C04-R1", sfn, H5, sq, desc, "key %r written and read" % slot[0],
-                           "key %r is written but not read back" % slot[0])
-    # bonds: written as index pairs, read back through the new topology's atom list
-    cfg = CFG(gfn)
-    defs = Defs(cfg)
-    for n in walk_no_nested(gfn):
-        if isinstance(n, ast.Call) and isinstance(n.func, ast.Attribute) and n.func.attr == "add_bond":
-            for i in (0, 1):
-                _decide_endpoint(ctx, n.args[i], n, cfg.node_containing(n), defs, H5, gq, "add_bond atom%d" % (i + 1))
-            ctx.note("C04-R1", n, H5, gq, "add_bond(type=, order=)", "the HDF5 topology JSON stores bonds as index pairs only (carrier limitation named in the property)")
+    except PUnsupported as e:
+        ctx.undecided("C04-R1", sfn, H5, sq, "JSON document", "setter not evaluable: %s" % e)
+        return
+    doc = cap["doc"]
+
+    def jsonable(x):
+        return isinstance(x, (str, int, bool, type(None))) or (isinstance(x, (list, tuple)) and all(jsonable(y) for y in x)) or (isinstance(x, dict) and all(isinstance(k, str) and jsonable(v) for k, v in x.items()))
+    ctx.decide(jsonable(doc), "C04-R1", sfn, H5, sq, "the document handed to json.dumps holds only strings, integers, lists and dicts", "", "the document contains values json cannot carry (model objects / arrays)")
+    by_symbol = {e_.symbol: e_ for e_ in W.EL.values()}
+
+    def get_by_symbol(ev, call):
+        sym = ev.pyval(ev.ex(call.args[0]))
+        if sym not in by_symbol:
+            raise Raised("KeyError", "KeyError(%r)" % (sym,))
+        return by_symbol[sym]
+
+    def itemgetter(ev, call):
+        k_ = ev.pyval(ev.ex(call.args[0]))
+        return ("<lambda>", ast.parse("lambda d: d[%r]" % (k_,), mode="eval").body, ev)
+    tg = W.evaluator(models={"json.loads": lambda ev, c: _copy.deepcopy(doc), "elem.get_by_symbol": get_by_symbol, "operator.itemgetter": itemgetter})
+    tg.funcs = dict(W.funcs, **h5funcs)
+    reader = Obj(mode="r", _lenient=True, tables=Obj(NoSuchNodeError="NoSuchNodeError"), _get_node=lambda *a, **k: ["RAW"])
+    try:
+        back = tg.run_fn(gfn, self=reader)
+    except Raised as e:
+        ctx.violated("C04-R1", gfn, H5, gq, "the getter rebuilds a topology from what the setter wrote", "the getter raises %s on the setter's own document (a key it reads is not written)" % (e.exc or e))
+        return
+    except PUnsupported as e:
+        ctx.undecided("C04-R1", gfn, H5, gq, "the getter rebuilds a topology from what the setter wrote", "getter not evaluable: %s" % e)
+        return
+    if not (isinstance(back, Obj) and "Topology" in getattr(back, "_isa", ())):
+        ctx.violated("C04-R1", gfn, H5, gq, "the getter rebuilds a topology from what the setter wrote", "the getter returns %r" % (back,))
+        return
+    same_shape = [len(c._residues) for c in back._chains] == [len(c._residues) for c in top._chains] and \
+        [len(r._atoms) for r in back._residues] == [len(r._atoms) for r in top._residues] and len(back._atoms) == len(top._atoms)
+    ctx.decide(same_shape, "C04-R1", gfn, H5, gq, "same chains / residues / atoms in the same order after save + load", "",
+               "structure %s instead of %s" % ([[len(r._atoms) for r in c._residues] for c in back._chains], [[len(r._atoms) for r in c._residues] for c in top._chains]))
+    if same_shape:
+        ents = {"chain": (top._chains, back._chains), "residue": (top._residues, back._residues), "atom": (top._atoms, back._atoms)}
+        for lvl, fields in PRESERVED.items():
+            for f in fields:
+                a_, b_ = ents[lvl]
+                diff = [(getattr(x, f), getattr(y, f, None)) for x, y in zip(a_, b_) if not (getattr(x, f) is getattr(y, f, None) or getattr(x, f) == getattr(y, f, None))]
+                desc = "HDF5 JSON slot for %s.%s" % (lvl, f)
+                show = lambda v: getattr(v, "tag", v)      # noqa: E731
+                ctx.decide(not diff, "C04-R1", sfn, H5, sq, desc, "comes back unchanged for every %s of the model topology" % lvl,
+                           "%s.%s does not survive save + load through the HDF5 topology node: %r comes back as %r" % (lvl, f, show(diff[0][0]) if diff else None, show(diff[0][1]) if diff else None))
+        bo = sorted((b.atom1.index, b.atom2.index) for b in top._bonds)
+        bb = sorted((b.atom1.index, b.atom2.index) for b in back._bonds)
+        ctx.decide(bo == bb and all(b.atom1 is back._atoms[b.atom1.index] and b.atom2 is back._atoms[b.atom2.index] for b in back._bonds), "C04-R1", gfn, H5, gq,
+                   "bonds come back as the same index pairs, pointing into the new topology's atoms", "", "bonds %s come back as %s" % (bo, bb))
+        for b in back._bonds[:1]:
+            ctx.note("C04-R1", gfn, H5, gq, "add_bond(type=, order=)", "the HDF5 topology JSON stores bonds as index pairs only (carrier limitation named in the property)")
 
 
 # -------------------------------------------------------------------------------------------------
@@ -796,56 +834,74 @@ def r1_element_identity(ctx):
 
 
 # -------------------------------------------------------------------------------------------------
-def r9_rebuilders_by_evaluation(ctx):
-    from ..tensym import TenSym, Obj, Raised
-    from ..pysym import Unsupported as PUnsupported
-    mod = ctx.py.mod(TOP)
-    classes = {n.name: n for n in mod.tree.body if isinstance(n, ast.ClassDef) and n.name in ("Topology", "Chain", "Residue", "Atom")}
-    funcs = {n.name: n for n in mod.tree.body if isinstance(n, ast.FunctionDef)}
-    if set(classes) != {"Topology", "Chain", "Residue", "Atom"}:
-        raise AnalysisError("topology.py: classes Topology / Chain / Residue / Atom not all found")
+class _TopWorld:
+    """Topology / Chain / Residue / Atom instantiated from the source of mdtraj/core/topology.py by the checker's own evaluator, and a model
+    topology built through the class's own add_* methods."""
+    SPEC = [("A", [("ALA", 0, "S1", [("N", "N", 0), ("CA", "C", 10)]), ("GLY", 7, "", [("N", "N", None)])]),
+            ("X", [("HOH", 5, "W", [("O", "O", 3), ("H1", "H", 4)])]),
+            (None, [("NA", 0, "", [("NA", "Na", 0)])])]
 
-    def bond_model(ev, call):
-        # Bond is a namedtuple subclass: (atom1, atom2) with the attributes type and order
+    def __init__(self, ctx):
+        from ..tensym import TenSym, Obj
+        self.TenSym, self.Obj = TenSym, Obj
+        mod = ctx.py.mod(TOP)
+        self.classes = {n.name: n for n in mod.tree.body if isinstance(n, ast.ClassDef) and n.name in ("Topology", "Chain", "Residue", "Atom")}
+        self.funcs = {n.name: n for n in mod.tree.body if isinstance(n, ast.FunctionDef)}
+        if set(self.classes) != {"Topology", "Chain", "Residue", "Atom"}:
+            raise AnalysisError("topology.py: classes Topology / Chain / Residue / Atom not all found")
+        self.EL = {s_: Obj(symbol=s_, name=s_, tag="element " + s_) for s_ in ("N", "C", "O", "H", "Na")}
+        self.SINGLE, self.DOUBLE = Obj(tag="Single"), Obj(tag="Double")
+        self.BONDS = [(1, 0, self.SINGLE, 1), (2, 1, None, None), (3, 4, self.DOUBLE, 2)]
+
+    def bond_model(self, ev, call):
+        Obj = self.Obj
         args = [ev.ex(a) for a in call.args]
         kw = {k.arg: ev.ex(k.value) for k in call.keywords}
         a1, a2 = args[0], args[1]
         return Obj(tag="bond", _isa=("Bond",), atom1=a1, atom2=a2, type=kw.get("type", args[2] if len(args) > 2 else None), order=kw.get("order", args[3] if len(args) > 3 else None),
                    _iter=lambda: [a1, a2], _getitem=lambda s_, k: [a1, a2][k])
 
-    def evaluator():
-        ts = TenSym({"elem": Obj(virtual=Obj(symbol="VS", tag="virtual"))}, funcs=funcs,
-                    models={"Bond": bond_model, "ilen": lambda ev, c: len(ev.iterate(ev.ex(c.args[0]))), "warnings.warn": lambda ev, c: None})
-        ts.classes = classes
+    def evaluator(self, env=None, models=None):
+        Obj = self.Obj
+        e = {"elem": Obj(virtual=Obj(symbol="VS", name="virtual", tag="virtual"))}
+        e.update(env or {})
+        m = {"Bond": self.bond_model, "ilen": lambda ev, c: len(ev.iterate(ev.ex(c.args[0]))), "warnings.warn": lambda ev, c: None}
+        m.update(models or {})
+        ts = self.TenSym(e, funcs=self.funcs, models=m)
+        ts.classes = dict(self.classes)
         return ts
 
-    def call(ts, o, m, *args, **kw):
+    def call(self, ts, o, m, *args, **kw):
         f = o._methods[m]
         pn = [a.arg for a in f.args.args][1:]
         given = {"self": o}
         given.update(dict(zip(pn, args)))
         given.update(kw)
-        return TenSym(ts.globals_env(), funcs=funcs, parent=ts).run_fn(f, **given)
-    EL = {s_: Obj(symbol=s_, name=s_, tag="element " + s_) for s_ in ("N", "C", "O", "H", "Na")}
-    SINGLE, DOUBLE = Obj(tag="Single"), Obj(tag="Double")
-    # (chain_id, [(name, resSeq, segment_id, [(atom name, element, serial)])])
-    SPEC = [("A", [("ALA", 0, "S1", [("N", "N", 0), ("CA", "C", 10)]), ("GLY", 7, "", [("N", "N", None)])]),
-            ("X", [("HOH", 5, "W", [("O", "O", 3), ("H1", "H", 4)])]),
-            (None, [("NA", 0, "", [("NA", "Na", 0)])])]
-    BONDS = [(1, 0, SINGLE, 1), (2, 1, None, None), (3, 4, DOUBLE, 2)]      # given with the higher index first where it says so
+        return self.TenSym(ts.globals_env(), funcs=self.funcs, parent=ts).run_fn(f, **given)
 
-    def build(ts, spec=SPEC, bonds=BONDS):
+    def build(self, ts, spec=None, bonds=None):
+        spec = self.SPEC if spec is None else spec
+        bonds = self.BONDS if bonds is None else bonds
         top = ts.instantiate("Topology", [], {})
         atoms = []
         for cid, residues in spec:
-            c = call(ts, top, "add_chain", cid)
+            c = self.call(ts, top, "add_chain", cid)
             for (rn, rs, seg, ats) in residues:
-                r = call(ts, top, "add_residue", rn, c, rs, seg)
+                r = self.call(ts, top, "add_residue", rn, c, rs, seg)
                 for (an, el, ser) in ats:
-                    atoms.append(call(ts, top, "add_atom", an, EL[el], r, serial=ser))
+                    atoms.append(self.call(ts, top, "add_atom", an, self.EL[el], r, serial=ser))
         for i, j, ty, od in bonds:
-            call(ts, top, "add_bond", atoms[i], atoms[j], type=ty, order=od)
+            self.call(ts, top, "add_bond", atoms[i], atoms[j], type=ty, order=od)
         return top
+
+
+# -------------------------------------------------------------------------------------------------
+def r9_rebuilders_by_evaluation(ctx):
+    from ..tensym import TenSym, Obj, Raised
+    from ..pysym import Unsupported as PUnsupported
+    W = _TopWorld(ctx)
+    SPEC, BONDS, DOUBLE = W.SPEC, W.BONDS, W.DOUBLE
+    evaluator, call, build = W.evaluator, W.call, W.build
 
     def signature(top):
         return ([(c.index, c.chain_id, [(r.index, r.name, r.resSeq, r.segment_id, [(a.index, a.name, a.element.tag, a.serial) for a in r._atoms]) for r in c._residues]) for c in top._chains],
